@@ -65,7 +65,7 @@ static const uint64_t pow10lst[POW10LST_COUNT] = {
 	if (NULL == (_buf) || 0 == (_size))				\
 		return (EINVAL);					\
 	for (_len = 1;							\
-	     _len < POW10LST_COUNT && ((uint64_t)(_num)) > pow10lst[_len]; \
+	     _len < POW10LST_COUNT && ((uint64_t)(_num)) >= pow10lst[_len]; \
 	     _len ++)							\
 		;							\
 	if ((_len + 1) > (_size)) {					\
@@ -96,7 +96,7 @@ static const uint64_t pow10lst[POW10LST_COUNT] = {
 		_neg = 1;						\
 	}								\
 	for (_len = 1;							\
-	     _len < POW10LST_COUNT && ((uint64_t)(_num)) > pow10lst[_len]; \
+	     _len < POW10LST_COUNT && ((uint64_t)(_num)) >= pow10lst[_len]; \
 	     _len ++)							\
 		;							\
 	_len += _neg;							\
